@@ -40,7 +40,9 @@ class FlatPackH(Harness):
         # C06's second harness (two steps, the 2nd action only respecting the EMITTED mask) costs ~110 s at 2x2 blocks (the
         # depth-2 lemma queries take ~20 s each); it runs in the thorough tier at 2x2.  The quick tier keeps the inductive step
         # + the implication kernel; that the emitted mask IS the rule on S' for every action is C04's obligation at both sizes.
-        return tier == "thorough" and self.cfg == "FlatPack@2x2"
+        # (now also in the quick tier: a seeded `_is_legal_action` that tolerates a one-cell overlap is rule-ILLEGAL, so only play that
+        # follows the emitted mask exposes it as an overlap; the job runs in parallel with the others and fits the tier)
+        return self.cfg == "FlatPack@2x2"
 
     @classmethod
     def _variants(cls):
